@@ -3,7 +3,8 @@ from props import engine_common
 
 THEOREMS = ["Slock.C01.reachable_inv", "Slock.C01.doLock_sound", "Slock.C01.admission_bound",
             "Slock.C01.C01_admission_direct_partial", "Slock.C01.C01_admission_wake_partial",
-            "Slock.C01.ffff_admits_unbounded", "Slock.Engine.consts_match"]
+            "Slock.C01.ffff_admits_unbounded", "Slock.Engine.consts_match",
+            "Slock.C01.reachable_U3", "Slock.C01.C01_uniform_count", "Slock.C01.C01_uniform_count_prefix", "Slock.C01.C01_mutex", "Slock.C01.uniformCount_spec"]
 FINISH = {"level": "proof", "assumptions": [
     "M-ENGINE is hand-written; it is tied to server/db.go + server/lock.go by the E-seq differential run (real LockDB, virtual clock) and by the regenerated constants (consts_match)",
     "granularity: one model step = one shard-mutex critical section; Go scheduling below that is not modelled",
